@@ -53,7 +53,7 @@ func C06(c *core.Ctx) {
 			"ClearNextHopsEnc/InsertNextHopEnc reachable only when the entry has a name",
 			"a name-less filler RIB node can write to the FIB: a nil name addresses the root entry in both FIB implementations, so inherited routes show up as next hops of '/'; path: "+p.PathString(res.Path))
 		// R6.1b: next hops are installed only for entries that hold routes of their own
-		hasRoutes := atomLenFieldPositive("routes", func(b ssa.Value) bool { return core.Strip(b) == r })
+		hasRoutes := atomLenFieldPositive("routes", func(b ssa.Value) bool { return core.Same(b, r) })
 		var inserts []ssa.Instruction
 		for _, ci := range core.FindCallsDeep(up, core.CalleeID{Pkg: "fw/table", Recv: "FibStrategy", Name: "InsertNextHopEnc"}) {
 			inserts = append(inserts, ci)
